@@ -24,7 +24,7 @@ MonInit == [bad |-> <<>>, wit |-> {},
             pending |-> <<>>,     \* queued entries not yet begun: <<f, pre, bk>>
             cur |-> 0,            \* flow whose replay began last (0: none yet)
             fin |-> TRUE,         \* ... and whether it has ended with a response or an error
-            revcur |-> FALSE]     \* a stop reverted the flow in flight (it was queued once more): signature only
+            revcur |-> FALSE]     \* a stop reverted the flow whose replay began last (it was queued once more): signature only
 
 ClsOf(ev, f) == ev.cls[CHOOSE j \in 1..Len(ev.flows) : ev.flows[j] = f]
 BadAdded(ev) == {i \in 1..Len(ev.added) : ClsOf(ev, ev.added[i]) \in Unreplayable}
@@ -56,7 +56,7 @@ Clause(m, ev) ==
     [] ev.k = "raised" -> <<"C53.command_raised", ev.op, ev.exc>>
     [] ev.k = "end" ->
          IF ~m.fin THEN <<"C53.replay_without_outcome", IF m.revcur THEN "reverted_in_flight" ELSE "not_reverted">>
-         ELSE IF m.pending # <<>> THEN <<"C53.queued_never_replayed">>
+         ELSE IF m.pending # <<>> THEN <<"C53.queued_never_replayed", IF m.revcur THEN "reverted_last_begun" ELSE "not_reverted">>
          ELSE <<>>
     [] OTHER -> <<>>
 
@@ -71,7 +71,7 @@ Upd(m, ev) ==
                              \cup (IF \E i \in 1..Len(ev.added) : ev.bk[i] THEN {"queued_flow_with_backup"} ELSE {})]
     [] ev.k = "stop" ->
          [m EXCEPT !.pending = SelectSeq(@, LAMBDA e : \E i \in 1..Len(ev.left) : ev.left[i] = e[1]),
-                   !.revcur = @ \/ (~m.fin /\ \E i \in 1..Len(ev.cleared) : ev.cleared[i] = m.cur),
+                   !.revcur = @ \/ (\E i \in 1..Len(ev.cleared) : ev.cleared[i] = m.cur),
                    !.wit = @ \cup (IF ev.cleared # <<>> THEN {"stop_restores"} ELSE {"stop_empty_queue"})
                              \cup (IF ev.cleared # <<>> /\ ~m.fin THEN {"stop_while_in_flight"} ELSE {})
                              \cup (IF \E i \in 1..Len(ev.cleared) : \E j \in 1..Len(m.pending) : m.pending[j][1] = ev.cleared[i] /\ m.pending[j][3]
